@@ -606,7 +606,7 @@ theorem C17_propagates_partial (E : Env) (hE : NoDefinedOnAttr E) (name : Bytes)
   | some nodes =>
     rw [ht] at h0
     dsimp only at h0 ⊢
-    obtain ⟨⟨o, st⟩, h1, h2⟩ := bind_ok h0
+    obtain ⟨⟨o, st⟩, h1, h2⟩ := rt_bind_ok h0
     have h3 : o = out ∧ st.trace.reverse = trace := by
       simp only [pure, Except.pure, Except.ok.injEq, Prod.mk.injEq] at h2; exact h2
     obtain ⟨rfl, rfl⟩ := h3
@@ -774,8 +774,8 @@ theorem C17_unresolved_test (E : Env) (apply : Bool) (e : Expr) (name : Bytes) (
   refine ⟨?_, ?_⟩
   · intro r h
     rw [hunf] at h
-    obtain ⟨x, _, h⟩ := bind_ok h
-    obtain ⟨y, _, h⟩ := bind_ok h
+    obtain ⟨x, _, h⟩ := rt_bind_ok h
+    obtain ⟨y, _, h⟩ := rt_bind_ok h
     cases h
   · intro v c st1 av st2 h1 h2
     rw [hunf, bind_of_ok h1]
@@ -808,14 +808,14 @@ theorem C17_unresolved_macro_node (E : Env) (go : Go) (tpl : Bytes) (te : Expr) 
     (st : St) (r : Out) (h : renderNode E go tpl (.fromN te names) st = .ok r) :
     ∃ (libSt : St), ∀ p ∈ names, (getKV p.1 libSt.ctx.macros).isSome = true := by
   simp only [renderNode] at h
-  obtain ⟨⟨⟨nv, _⟩, st1⟩, _, h⟩ := bind_ok h
-  obtain ⟨name, _, h⟩ := bind_ok h
+  obtain ⟨⟨⟨nv, _⟩, st1⟩, _, h⟩ := rt_bind_ok h
+  obtain ⟨name, _, h⟩ := rt_bind_ok h
   split at h
   · cases h
   · split at h
     · cases h
-    · obtain ⟨⟨_, st2⟩, _, h⟩ := bind_ok h
-      obtain ⟨ms, hms, _⟩ := bind_ok h
+    · obtain ⟨⟨_, st2⟩, _, h⟩ := rt_bind_ok h
+      obtain ⟨ms, hms, _⟩ := rt_bind_ok h
       refine ⟨st2, fun p hp => ?_⟩
       cases hg : getKV p.1 st2.ctx.macros with
       | some _ => rfl
